@@ -22,6 +22,13 @@ void Executor::observe_solution(Obj& o) {
   observe_i(o, s.status()); observe_i(o, s.numIterations()); observe_i(o, s.hasSol()); observe_i(o, s.hasBasis());
   observe_i(o, s.isPrimalFeasible()); observe_i(o, s.isDualFeasible()); observe_i(o, s.hasPrimalRay()); observe_i(o, s.hasDualFarkas());
   std::vector<double> v;
+  if (is_rational_mode(s) && s.getInt(P::i("syncmode")) != 0) {
+    // an exact solve is observed through the rational getters only: the real getters convert (and cache) the rational solution
+    auto obsq = [&](const std::vector<Q>& q) { for (auto& e : q) { std::string t = e.get_str(); observe(o, t.data(), t.size()); } };
+    if (s.hasSol()) { std::string t = s.objValueQ().get_str(); observe(o, t.data(), t.size()); std::vector<Q> q; if (s.getPrimalQ(q)) obsq(q); if (s.getDualQ(q)) obsq(q); if (s.getRedCostQ(q)) obsq(q); if (s.getSlacksQ(q)) obsq(q); }
+    if (s.hasBasis()) { std::vector<int> r, c; s.getBasis(r, c); observe(o, r.data(), r.size() * 4); observe(o, c.data(), c.size() * 4); }
+    return;
+  }
   if (s.hasSol()) {
     observe_d(o, s.objValue());
     if (s.getPrimal(v)) observe(o, v.data(), v.size() * 8);
